@@ -44,9 +44,18 @@ def _np_concatenate(interp, seq, axis=0):
                 raise EngineError("np.concatenate: item shape depends on the position")
 
         def fn(idx, data=data, n=n):
-            t = sv.floordiv(idx[0], n)
-            r = sv.sub(idx[0], sv.mul(t, n))
-            return data.fn(t).get((r, idx[1]))
+            if is_conc(n):
+                t = sv.floordiv(idx[0], n)
+                r = sv.sub(idx[0], sv.mul(t, n))
+                return data.fn(t).get((r, idx[1]))
+            # symbolic item length n: a row index written as  t*n + r  with 0 <= r < n  is row r of item t (Euclidean division);
+            # the decomposition is read off the index term, the side condition guards the value (otherwise: unconstrained)
+            t, r = _split_multiple(idx[0], n)
+            ok = sv.and_(sv.cmp(">=", r, 0), sv.cmp("<", r, n))
+            val = data.fn(t).get((r, idx[1]))
+            other = sv.Cx(sv.fresh_real("cc"), sv.fresh_real("cc")) if isinstance(norm(val), sv.Cx) else \
+                (sv.fresh_int("cc") if (isinstance(norm(val), sv.SV) and norm(val).is_int) or isinstance(norm(val), int) else sv.fresh_real("cc"))
+            return sv.ite(ok, val, other)
         return A.new_arr((sv.mul(data.length, n), c), A._memo(fn), probe.dtype)
     items = [_arr(x, interp) for x in data]
     if not items or any(x.ndim != items[0].ndim for x in items):
@@ -71,6 +80,26 @@ def _np_concatenate(interp, seq, axis=0):
             return acc
         return A.new_arr((offs[-1],) + tuple(items[0].shape[1:]), A._memo(fn2), A.promote(*[x.dtype for x in items]))
     raise EngineError("np.concatenate of arrays with symbolic lengths in a concrete list")
+
+
+def _split_multiple(r, n):
+    """r = t*n + rest, read syntactically off the simplified term (t = 0 if no addend is a multiple of n)"""
+    rz, nz = z3.simplify(sv.znum(r)), z3.simplify(sv.znum(n))
+    adds = list(rz.children()) if z3.is_add(rz) else [rz]
+    for a in adds:
+        co = None
+        if a.eq(nz):
+            co = z3.IntVal(1)
+        elif z3.is_mul(a):
+            ch = list(a.children())
+            for k, c in enumerate(ch):
+                if c.eq(nz):
+                    rest = ch[:k] + ch[k + 1:]
+                    co = rest[0] if len(rest) == 1 else z3.Product(*rest)
+                    break
+        if co is not None:
+            return sv.wrap(z3.simplify(co)), sv.wrap(z3.simplify(rz - a))
+    return 0, sv.wrap(rz)
 
 
 def open_handle(interp, path, mode="r", *a, **k):
